@@ -16,11 +16,13 @@ import QSP.Model.Pipeline
 import QSP.Model.Cli
 import QSP.Model.Interleave
 import QSP.Model.Completion
+import QSP.Model.PQCompletion
 import QSP.Model.Decomp
 import QSP.Model.DecompSplit
 import QSP.Model.LinSys
 import QSP.Model.JacErr
 import QSP.Model.JacImpl
+import QSP.Model.JacImplErr
 open QSP QSP.Proto
 
 def bad : String := "bad-op"
@@ -292,6 +294,10 @@ def handle (toks : List String) : String :=
     | some p, some ps, some c, some s =>
       showRatList (JacImpl.jacImplPt p (ps.map fun z => (z.re, z.im)) c s)
     | _, _, _, _ => bad
+  | ["sym.jacimplerr", n, delta] =>
+    match n.toNat?, parseRat delta with
+    | some n, some d => showRat (JacImpl.jacImplErr n d)
+    | _, _ => bad
   | ["sym.jacasm", par, d, cosTab, rows] =>
     -- `gen_jacobian` assembly: rows = the (d+1) sampled rows separated by `;`
     match par.toNat?, d.toNat?, parseRatList cosTab, (rows.splitOn ";").mapM parseRatList with
@@ -407,6 +413,14 @@ def handle (toks : List String) : String :=
       match completeFG t rs sd n with
       | some (g, ratio) => s!"{showRatList g} {showRat ratio}"
       | none => "none"
+    | _, _, _ => bad
+  | ["pq.complete", tol, roots, lead] =>
+    match parseRat tol, parseList parseCQ roots, parseRat lead with
+    | some t, some rs, some ld =>
+      match pqSelect t rs, pqComplete t rs ld with
+      | some (re, im, cx), some (q, ratio) =>
+        s!"{showRatList re} {showRatList im} {showList showCQ cx} {showList showCQ q} {showRat ratio}"
+      | _, _ => "none"
     | _, _, _ => bad
   -- sup-norm certificate -----------------------------------------------------------------
   | ["sup.real", bnd, depth, d, l] =>
